@@ -94,7 +94,7 @@ def sites(F, cone, include_expansion_fns=False):
                 m = t["msg"]
                 if m.startswith(IGNORED_ASSERTS):
                     continue
-                label = "assert:" + m
+                label = "assert:" + m.split(" ")[0]
             elif t["k"] == "call":
                 label = classify_call(t)
                 if label and label != "panic" and t.get("a"):
